@@ -10,10 +10,16 @@ use proptest::prelude::*;
 use rayon::prelude::*;
 use serde_json::{json, Value};
 
-pub const RULE: &str = "positions: rule-interaction-biased set-ups (castle/ep/promotion/pin/check/cage themes, uniform and pawn-heavy placements) and reachable positions (random legal walks from 14 seeds and from set-ups); each is given to a brand-new MoveGenerator and the result compared as a multiset of (kind, from, to, promotion, captured) with the mailbox reference. Walks additionally evolve one engine board by apply() and compare at every node; tree walks enumerate all nodes to a fixed depth. Non-trivial = position shows a legal or illegal-pseudo-legal en passant, available or attack-prevented castling, promotion, pin, check, double check, mate or stalemate; distinct = position fingerprint (placement, side, rights, ep).";
+pub const RULE: &str = "positions: rule-interaction-biased set-ups (castle/ep/promotion/pin/check/cage themes, uniform and pawn-heavy placements) and reachable positions (random legal walks from 14 seeds and from set-ups); each is given to a brand-new MoveGenerator (the colour is passed explicitly; in half of the cases board.turn() is the other colour, as in count_positions) and the result compared as a multiset of (kind, from, to, promotion, captured) with the mailbox reference. Walks additionally evolve one engine board by apply() and compare at every node; tree walks enumerate all nodes to a fixed depth. Non-trivial = position shows a legal or illegal-pseudo-legal en passant, available or attack-prevented castling, promotion, pin, check, double check, mate or stalemate; distinct = position fingerprint (placement, side, rights, ep).";
 
 pub fn test_position(pos: &Pos, st: &mut Stats) -> TestResult {
     let mut board = to_board(pos);
+    // callers such as count_positions pass the colour explicitly and never update
+    // board.turn(): in half of the cases the board's turn is the other colour
+    if pos.fingerprint() & 1 == 1 {
+        board.toggle_turn();
+        st.label("board-turn-is-other-colour");
+    }
     let mut g = MoveGenerator::new();
     let reference = pos.legal_moves();
     let engine = engine_moves(&mut g, &mut board, pos.side);
